@@ -115,6 +115,18 @@ class Check:
                     print(f"KNOWN-FINDING: property={self.pid} {f['what']} [key={key}]", flush=True)
                 return False
         rp = None
+        if replay_src is None:
+            # fallback replay: re-derive the fact from the current tree by re-running this check and
+            # looking for the same violation key
+            replay_src = ("#!/verif/.venv/bin/python\n\"\"\"Replay by re-running the check on the current /repo tree and looking for the same violation key.\"\"\"\n"
+                          "import subprocess, sys, tempfile, os\n"
+                          f"key = {key!r}\n"
+                          "out = tempfile.mkdtemp(dir='/verif/.work')\n"
+                          f"r = subprocess.run(['/verif/check.sh', {self.pid!r}, {self.tier!r}], capture_output=True, text=True, env=dict(os.environ, VERIF_OUT=out))\n"
+                          "hit = [l for l in r.stdout.splitlines() if l.startswith('VIOLATION') and ('key=' + key) in l]\n"
+                          "print('\\n'.join(hit[:3]) or 'no violation with this key')\n"
+                          "print('REPRODUCED' if hit else 'not reproduced on this tree')\n"
+                          "sys.exit(1 if hit else 0)\n")
         if replay_src is not None:
             d = REPLAYS / self.pid
             d.mkdir(parents=True, exist_ok=True)
